@@ -11,7 +11,10 @@ CONSTANTS
   KillCarriesState = TRUE
   Once = FALSE
   Undecodable = {}
-  AllowLocalDecodeKill = TRUE
+  Local = {}
+  MonPairs = {}
+  SweepKillsDraining = {TRUE}
+  AllowLocalDecodeKill = FALSE
 CONSTRAINT Progress
 INVARIANTS
   OrderOk PostStopOnlyGraceful NoOverlap NoStartAfterKill NoHandlerAfterStop
